@@ -154,6 +154,11 @@ func Programs08(tier string) []Program {
 			}
 		}
 	}
+	// two readers that load the same unloaded segment at the same time, and a GC that may unload it
+	for _, pr := range [][2]string{{"Get:3", "Get:2"}, {"Get:3", "Get:3"}, {"Get:3", "Consume:2,40"}, {"Consume:2,40", "Consume:3,40"}, {"GetByKey:1", "Get:2"}} {
+		add(Program{Cfg: cfgBoth, Init: inits[2].init, Threads: [][]string{{pr[0]}, {pr[1]}, {"GC:0"}}})
+		add(Program{Cfg: cfgBoth, Init: inits[2].init, Threads: [][]string{{pr[0]}, {pr[1]}, {"GC:0", "GC:0"}}})
+	}
 	// two publishers against a third party (quick leaves multisets out of the generic triples)
 	for _, st := range inits[1:] {
 		for _, c := range []string{"Consume:-2,40", "Consume:2,40", "Delete:1", "Get:-1", "ConsumeByKey:0,-2,40", "NextOffset", "GC:0"} {
